@@ -259,7 +259,7 @@ def decrypt_packet(packet : PHYPayload, appkey=None, appskey=None, nwkskey=None)
             # Decrypt uplink frame
             phy = bytes(packet)[:-4]
             mic = bytes(packet)[-4:]
-            mac = packet.getlayer(MACPayloadUplink)
+            mac = packet.getlayer(MACPayloadDownlink)
             exp_mic = MIC_Downlink(nwkskey, mac.dev_addr, mac.fcnt, phy)
             if exp_mic == mic:
                 # decrypt mac commands
